@@ -315,10 +315,13 @@ where
     }
 
     pub(crate) fn disk_used(&self) -> u64 {
-        if let State::OnDisk(file) = &self.inner {
-            file.file_size()
-        } else {
-            0
+        match &self.inner {
+            State::OnDisk(file) => file.file_size(),
+            // the index file stays on disk while its content is held in memory (loaded to accept new
+            // records, or found invalid and regenerated) until the next dump replaces it
+            State::InMemory(_) => std::fs::metadata(self.name.as_path())
+                .map(|m| m.len())
+                .unwrap_or(0),
         }
     }
 }
